@@ -18,11 +18,11 @@ RADII = {"SE2": (0.3, 0.2, 0.03), "SE3": (0.1, 0.05, 0.02)}
 META = {
     "rule": "every combination of: family {ring, eight, grid | ring, helix} x size n in {3,6,12} (thorough +24,40) x initial-guess perturbation pattern {plus, minus, alt, sin, cos} x "
     "measurement-noise pattern {zero, alt, sin} x radius {full, half} (thorough: {1, .75, .5, .25}) of the calibrated neighbourhood (SE2: dt .3, dtheta .2, noise .03; SE3: dt .1, dq .05, noise .02) x tol in "
-    "{1e-10,1e-6,1e-3} x information scale {1, 1e-6, 1e-10 (pattern alt only)}, max_iter 50; for pattern alt also three histories: an earlier coarser run (tol 1e-3) on the same Graph object, an earlier iteration with the anchor at another vertex, a landmark entered twice with both vertices seeded from ONE shared pose object; plus two graph variants: every landmark also seen from its first pose through a second sensor offset (same offset id), and a second disconnected displaced copy of the map anchored by the caller at a middle vertex while the first copy relies on fix_first_pose=True. Oracles: final_chi2 <= initial_chi2; Newton decrement b^T H^-1 b of the returned state, from the "
+    "{1e-10,1e-6,1e-3} x information scale {1, 1e-6, 1e-10 (pattern alt only)}, max_iter 50; for pattern alt also three histories: an earlier coarser run (tol 1e-3) on the same Graph object, an earlier iteration with the anchor at another vertex, a landmark entered twice with both vertices seeded from ONE shared pose object; plus two graph variants: every landmark also seen from its first pose through a second sensor offset (same offset id), a second disconnected displaced copy of the map anchored by the caller at a middle vertex while the first copy relies on fix_first_pose=True, a vertex list that starts with a landmark (fix_first_pose=True, a middle pose anchored by the caller), and information matrices replaced between two runs. Oracles: final_chi2 <= initial_chi2; Newton decrement b^T H^-1 b of the returned state, from the "
     "REFERENCE error model with 5-point Jacobians, <= 10 tol chi2_final + floor; noise-free: every optimised pose (relative to the fixed first pose) equals ground truth within 1e-7. "
     "non-trivial = initial chi2 > 1e-6 (the run has to move)",
     "assumptions": ["claim limited to the calibrated neighbourhood and the listed families (undamped Gauss-Newton may legitimately diverge outside)", "reference error model + 5-point Jacobians + numpy solve trusted; the converged flag is C12's business"],
-    "required_classes": ["kind:SE2", "kind:SE3", "noise_free", "noisy", "landmarks_with_offset", "loop_closure", "tol:1e-10", "tol:0.001", "weak_information", "hist:two_stage", "hist:reanchor", "hist:shared_landmark_seed", "hist:two_sensors", "hist:two_components"],
+    "required_classes": ["kind:SE2", "kind:SE3", "noise_free", "noisy", "landmarks_with_offset", "loop_closure", "tol:1e-10", "tol:0.001", "weak_information", "hist:two_stage", "hist:reanchor", "hist:shared_landmark_seed", "hist:two_sensors", "hist:two_components", "hist:landmark_first", "hist:reweighted"],
     "bounds": {"quick": "n in {3,6,12}", "thorough": "n in {3,6,12,24,40}"},
 }
 
@@ -50,7 +50,7 @@ def run_chunk(chunk, tier, seed):
                     _do(acc, {"kind": kind, "fam": fam, "n": n, "pert": pert, "noise": noise, "rad": rad, "tol": tol, "oscale": osc, "seed": seed})
                 if pert == "alt" and rad == 1.0:
                     # histories / object reuse: the judged run is not the first thing that happens to the Graph object
-                    for hist in ("two_stage", "reanchor", "shared_landmark_seed", "two_sensors", "two_components"):
+                    for hist in ("two_stage", "reanchor", "shared_landmark_seed", "two_sensors", "two_components", "landmark_first", "reweighted"):
                         _do(acc, {"kind": kind, "fam": fam, "n": n, "pert": pert, "noise": noise, "rad": rad, "tol": tol, "oscale": 1.0, "seed": seed, "hist": hist})
     return acc
 
@@ -208,7 +208,35 @@ def _eval_inner(case):
         spec["edges"] += extra_e
         truth = truth + extra_t
         ffp = True
+    if hist == "landmark_first":
+        # the vertex list starts with a landmark (seeded at its true position); the caller anchors a middle pose and leaves
+        # fix_first_pose at True: exactly the first LISTED vertex (the landmark) and the marked pose are held
+        tmap = {t[0]: t[2] for t in truth}
+        lms = [v for v in spec["vertices"] if v["id"] >= 1000]
+        poses_ = [v for v in spec["vertices"] if v["id"] < 1000]
+        lms[0]["pose"] = list(tmap[lms[0]["id"]])
+        poses_[0]["fixed"] = False
+        mid = poses_[len(poses_) // 2]
+        mid["fixed"] = True
+        mid["pose"] = list(tmap[mid["id"]])
+        spec["vertices"] = lms + poses_
+        # ground truth is compared relative to its first entry: make that the anchored pose
+        truth = [t for t in truth if t[0] == mid["id"]] + [t for t in truth if t[0] != mid["id"]]
+        ffp = True
     g, verts, edges = GB.build(spec)
+    if hist == "reweighted":
+        # between two runs the caller replaces information matrices (down-weighting the loop closures): the second run must
+        # descend the NEW objective
+        GB.optimize(g, tol=1e-3, max_iter=50, fix_first_pose=False)
+        np_ = len([v for v in spec["vertices"] if v["id"] < 1000])
+        for es, ed in zip(spec["edges"], edges):
+            a, b = es["ids"][0], es["ids"][-1]
+            if b < 1000 and abs(a - b) != 1:
+                es["om"] = [[0.02 * x for x in r] for r in es["om"]]
+                ed.information = np.array(es["om"], dtype=float)
+            elif b >= 1000:
+                es["om"] = [[3.0 * x for x in r] for r in es["om"]]
+                ed.information = 3.0 * np.asarray(ed.information)
     if hist == "shared_landmark_seed":
         byid = {v.id: v for v in verts}
         byid[2000].pose = byid[[v["id"] for v in spec["vertices"] if v["id"] >= 1000][0]].pose
